@@ -3,6 +3,7 @@ package c09
 import (
 	"fmt"
 	"sort"
+	"strings"
 	"sync"
 	"testing"
 
@@ -30,11 +31,19 @@ type Prog struct {
 
 const slotMs = 12000
 
-func committeeSize(val int) int {
-	if val == 1 {
-		return 7
+func committeeSize(val int) int { return valfx.CommitteeSize(val) }
+
+// recvFor is a reception time (relative to the slot start) at which an honest message of the given round fits
+// the round window with a round to spare: quick rounds last 2 s up to round 8, then 2 min each.
+func recvFor(round uint64) int64 {
+	switch {
+	case round <= 2:
+		return 4000
+	case round <= 8:
+		return int64(round-1)*2000 + 500
+	default:
+		return 16000 + int64(round-9)*120000 + 500
 	}
-	return 4
 }
 func quorum(val int) int { n := committeeSize(val); return n - (n-1)/3 }
 
@@ -86,7 +95,7 @@ func roleMaxRound(role int) uint64 {
 // allowed says whether the statement permits accepting s given what the same signers had accepted before.
 // Window rules are only judged on inputs clearly outside the window ("" = allowed or not judged).
 func (m *model) allowed(s *vmsg.Spec) string {
-	if s.Val != 0 && s.Val != 1 {
+	if !valfx.IsActive(s.Val) {
 		return "validator is not known / active / non-liquidated"
 	}
 	if s.Topic != "right" {
@@ -203,7 +212,7 @@ type side struct {
 
 func newSide(signed bool) *side {
 	e := valfx.NewEnv(signed)
-	e.AddDuties(8)
+	e.AddDuties(32)
 	return &side{env: e, mdl: &model{signed: signed, h: map[string][]hist{}}}
 }
 
@@ -307,7 +316,7 @@ func mutate(rule string, base vmsg.Spec, arg int) ([]vmsg.Spec, vmsg.Spec) {
 		// any committee member but the leader
 		e := valfx.NewEnv(false)
 		ld = uint64(base.LeaderID(e))
-		m.Signers = []uint64{ld%uint64(n) + 1}
+		m.Signers = []uint64{(ld-1+1+uint64(arg%(n-1)))%uint64(n) + 1}
 		m.EnvOp = m.Signers[0]
 	case "fulldata-mismatch":
 		m.BadRoot = true
@@ -319,6 +328,7 @@ func mutate(rule string, base vmsg.Spec, arg int) ([]vmsg.Spec, vmsg.Spec) {
 		m.RecvRelMs = int64(45+arg%10) * slotMs
 	case "round-beyond-window":
 		m.Round = uint64(6 + arg%3)
+		m.RecvRelMs = 4000
 		m.Leader = m.QType == 0
 		if m.QType == 0 {
 			m.Just = "rc-quorum"
@@ -443,15 +453,21 @@ func run(p Prog) *prog.Result {
 
 func genHonest(t *rapid.T, slotRel int64) vmsg.Spec {
 	s := vmsg.Spec{Topic: "right", EnvSig: "valid", SigKind: "ok", PSigKind: "ok", Just: "none", RecvRelMs: 4000, SlotRel: slotRel}
-	s.Val = rapid.SampledFrom([]int{0, 0, 1}).Draw(t, "val")
+	s.Val = rapid.SampledFrom(append([]int{0, 0}, valfx.ActiveIdx()...)).Draw(t, "val")
 	n := committeeSize(s.Val)
 	s.Role = rapid.SampledFrom([]int{0, 0, 0, 1, 2, 3, 4}).Draw(t, "role")
 	signer := uint64(rapid.IntRange(1, n).Draw(t, "signer"))
 	s.EnvOp = signer
 	s.Round = uint64(rapid.IntRange(1, 3).Draw(t, "round"))
+	if rapid.IntRange(0, 2).Draw(t, "anyround") == 0 {
+		// any round the role allows, received when that round is current
+		s.Round = uint64(rapid.IntRange(1, int(roleMaxRound(s.Role))).Draw(t, "round_any"))
+	}
+	s.RecvRelMs = recvFor(s.Round)
 	if rapid.IntRange(0, 4).Draw(t, "ispartial") == 0 {
 		s.SSVType, s.PSigner, s.PCount = "partial", signer, 1
 		s.Round = 0
+		s.RecvRelMs = 4000
 		switch spectypes.BeaconRole(s.Role) {
 		case spectypes.BNRoleAggregator:
 			s.PType = rapid.SampledFrom([]int{0, 2}).Draw(t, "ptype")
@@ -493,13 +509,196 @@ func genHonest(t *rapid.T, slotRel int64) vmsg.Spec {
 func gen(t *rapid.T) Prog {
 	p := Prog{Signed: rapid.Bool().Draw(t, "signed")}
 	np := rapid.IntRange(0, 5).Draw(t, "nprefix")
+	shift := int64(rapid.IntRange(0, 13).Draw(t, "slotshift")) // heights of every residue modulo the committee sizes
 	for i := 0; i < np; i++ {
-		p.Prefix = append(p.Prefix, genHonest(t, int64(i/2)))
+		p.Prefix = append(p.Prefix, genHonest(t, shift+int64(i/2)))
 	}
-	p.Base = genHonest(t, int64(np/2)+int64(rapid.IntRange(0, 1).Draw(t, "baseslot")))
+	p.Base = genHonest(t, shift+int64(np/2)+int64(rapid.IntRange(0, 1).Draw(t, "baseslot")))
 	p.Rule = rapid.SampledFrom(rulesFor(&p.Base, p.Signed)).Draw(t, "rule")
-	p.Arg = rapid.IntRange(0, 100).Draw(t, "arg")
+	p.Arg = rapid.IntRange(0, 1000).Draw(t, "arg")
 	return p
+}
+
+// ---- topic rule over every subnet -----------------------------------------------------------------------
+//
+// The fixture of the rule-mutant test has a handful of validators, i.e. a handful of subnets. The topic rule
+// quantifies over (validator subnet, topic) pairs, so this test uses a store with one active validator per subnet
+// and sends an honest message on an arbitrary one of the 128 topics. Oracle: accepted only on the topic whose
+// number is the key's subnet (computed here from the key bytes, not through network/commons); the same message on
+// that topic in a twin validator shows that nothing else stands in the way.
+
+type TopicProg struct {
+	Signed bool      `json:"signed"`
+	Msg    vmsg.Spec `json:"msg"` // Val indexes valfx.TopicStore(); Topic "index", TopicN the topic number
+}
+
+func runTopic(p TopicProg) *prog.Result {
+	res := &prog.Result{}
+	st := valfx.TopicStore()
+	v := st.Vals[p.Msg.Val%len(st.Vals)]
+	own := valfx.Subnet(v.PK)
+	sent := p.Msg.TopicN % 128
+	validate := func(s vmsg.Spec) (bool, string) {
+		e := valfx.NewEnvStore(st, p.Signed)
+		e.AddDuties(2)
+		topic, data, recv := s.Build(e, p.Signed)
+		if recv.After(e.Clock.Now()) {
+			e.Clock.Set(recv)
+		}
+		_, _, err := validation.ValidateP2PMessageAt(e.MV, valfx.PMsg(topic, data), recv)
+		return err == nil, validation.ErrorText(err)
+	}
+	twin := p.Msg
+	twin.Topic, twin.TopicN = "index", own
+	twinAcc, twinTxt := validate(twin)
+	acc, txt := validate(p.Msg)
+	if acc && sent != own {
+		res.Fail = prog.Failf("C09:accepted-on-foreign-topic", "a %s message for a validator of subnet %d was accepted on topic %d (on its own topic: accepted=%v %s)\nmessage: %+v",
+			kindOf(&p.Msg), own, sent, twinAcc, twinTxt, p.Msg)
+		return res
+	}
+	res.NonTrivial = twinAcc && sent != own
+	res.Classes = []string{"kind=" + kindOf(&p.Msg), fmt.Sprintf("own-topic=%v", sent == own), fmt.Sprintf("twin-accepted=%v", twinAcc),
+		fmt.Sprintf("shares-last-digit=%v", sent%10 == own%10), fmt.Sprintf("one-is-suffix-of-other=%v", sent != own && (strings.HasSuffix(fmt.Sprint(sent), fmt.Sprint(own)) || strings.HasSuffix(fmt.Sprint(own), fmt.Sprint(sent)) || strings.HasPrefix(fmt.Sprint(sent), fmt.Sprint(own)) || strings.HasPrefix(fmt.Sprint(own), fmt.Sprint(sent))))}
+	if sent != own {
+		res.Classes = append(res.Classes, "foreign:"+txt)
+	}
+	return res
+}
+
+func genTopic(t *rapid.T) TopicProg {
+	p := TopicProg{Signed: rapid.Bool().Draw(t, "signed")}
+	s := vmsg.Spec{Topic: "index", EnvSig: "valid", SigKind: "ok", PSigKind: "ok", Just: "none", RecvRelMs: 4000}
+	s.Val = rapid.IntRange(0, len(valfx.TopicStore().Vals)-1).Draw(t, "val")
+	s.Role = rapid.SampledFrom([]int{0, 0, 1, 2, 3, 4}).Draw(t, "role")
+	signer := uint64(rapid.IntRange(1, 4).Draw(t, "signer"))
+	s.EnvOp = signer
+	if rapid.IntRange(0, 4).Draw(t, "ispartial") == 0 {
+		s.SSVType, s.PSigner, s.PCount = "partial", signer, 1
+	} else {
+		s.SSVType, s.Round = "consensus", 1
+		s.QType = rapid.IntRange(0, 3).Draw(t, "qtype")
+		s.Signers = []uint64{signer}
+		if s.QType == 0 {
+			s.Leader, s.Value, s.EnvOp = true, "A-value", 1
+		}
+	}
+	own := valfx.Subnet(valfx.TopicStore().Vals[s.Val].PK)
+	switch rapid.IntRange(0, 5).Draw(t, "topic_kind") {
+	case 0: // a topic whose decimal name shares a suffix or prefix with the right one
+		c := []int{own % 10, own % 100, 100 + own%100, 10 + own%10, 20 + own%10, own * 10 % 128, own*10%128 + 1, own / 10, own / 100}
+		s.TopicN = rapid.SampledFrom(c).Draw(t, "topic_like") % 128
+	case 1:
+		s.TopicN = (own + rapid.SampledFrom([]int{1, 127, 64, 2, 126}).Draw(t, "topic_near")) % 128
+	default:
+		s.TopicN = rapid.IntRange(0, 127).Draw(t, "topic")
+	}
+	p.Msg = s
+	return p
+}
+
+func TestPropTopicRule(t *testing.T) { prog.Check(t, "C09", "TestPropTopicRule", genTopic, runTopic) }
+
+// ---- leader rule over every committee size, height residue and round --------------------------------------
+//
+// "comes from the round leader if it is a proposal": the leader rotates with height + round modulo the committee
+// size, so the rule quantifies over (committee size, height mod n, round, claimed signer). The case sends one
+// proposal (round-change quorum attached above round 1, received when its round is current) signed by a drawn
+// committee member. Oracle: accepted only if that member is the round-robin leader, computed here as
+// committee[(height + round - 1) mod n]; the leader's own proposal in a twin validator shows the refusal is
+// about the signer.
+
+type LeaderProg struct {
+	Signed bool      `json:"signed"`
+	Msg    vmsg.Spec `json:"msg"` // a proposal with Leader=false and one drawn signer
+}
+
+func runLeader(p LeaderProg) *prog.Result {
+	res := &prog.Result{}
+	validate := func(s vmsg.Spec) (bool, string) {
+		e := valfx.NewEnv(p.Signed)
+		e.AddDuties(40)
+		topic, data, recv := s.Build(e, p.Signed)
+		if recv.After(e.Clock.Now()) {
+			e.Clock.Set(recv)
+		}
+		_, _, err := validation.ValidateP2PMessageAt(e.MV, valfx.PMsg(topic, data), recv)
+		return err == nil, validation.ErrorText(err)
+	}
+	e := valfx.NewEnv(false)
+	leader := uint64(p.Msg.LeaderID(e))
+	n := committeeSize(p.Msg.Val)
+	twin := p.Msg
+	twin.Signers, twin.EnvOp = []uint64{leader}, leader
+	twinAcc, twinTxt := validate(twin)
+	refusals := map[string]bool{}
+	// every other committee member in turn, starting from the drawn one
+	for i := 0; i < n; i++ {
+		signer := (p.Msg.Signers[0]-1+uint64(i))%uint64(n) + 1
+		if signer == leader {
+			continue
+		}
+		m := p.Msg
+		m.Signers, m.EnvOp = []uint64{signer}, signer
+		acc, txt := validate(m)
+		if acc {
+			res.Fail = prog.Failf("C09:non-leader-proposal-accepted", "a proposal by operator %d was accepted for height %d round %d of a %d-operator committee whose leader is operator %d (the leader's own proposal: accepted=%v %s)\nmessage: %+v",
+				signer, p.Msg.Slot(e), p.Msg.Round, n, leader, twinAcc, twinTxt, m)
+			return res
+		}
+		refusals["non-leader:"+txt] = true
+	}
+	res.NonTrivial = twinAcc
+	res.Classes = []string{fmt.Sprintf("N=%d", n), fmt.Sprintf("round=%d", p.Msg.Round), fmt.Sprintf("twin-accepted=%v", twinAcc),
+		fmt.Sprintf("height-mod-n=0:%v", uint64(p.Msg.Slot(e))%uint64(n) == 0), fmt.Sprintf("round-mod-n=0:%v", p.Msg.Round%uint64(n) == 0),
+		fmt.Sprintf("height-and-round-mod-n=0:%v", uint64(p.Msg.Slot(e))%uint64(n) == 0 && p.Msg.Round%uint64(n) == 0)}
+	for k := range refusals {
+		res.Classes = append(res.Classes, k)
+	}
+	if !twinAcc {
+		res.Classes = append(res.Classes, "leader-refused:"+twinTxt)
+	}
+	sort.Strings(res.Classes)
+	return res
+}
+
+func genLeader(t *rapid.T) LeaderProg {
+	p := LeaderProg{Signed: rapid.Bool().Draw(t, "signed")}
+	s := vmsg.Spec{Topic: "right", EnvSig: "valid", SigKind: "ok", PSigKind: "ok", Just: "none", SSVType: "consensus", QType: 0, Value: "A-value"}
+	s.Val = rapid.SampledFrom(valfx.ActiveIdx()).Draw(t, "val")
+	n := committeeSize(s.Val)
+	s.Role = rapid.SampledFrom([]int{0, 0, 1, 1, 2, 3, 4}).Draw(t, "role")
+	s.SlotRel = int64(rapid.IntRange(0, 26).Draw(t, "slot"))
+	max := int(roleMaxRound(s.Role))
+	s.Round = uint64(rapid.IntRange(1, max).Draw(t, "round"))
+	if rapid.IntRange(0, 2).Draw(t, "wrap") == 0 {
+		// the rotation's wrap-around points: height and round at or next to a multiple of the committee size
+		h0 := int64(valfx.NewEnv(false).Slot0())
+		res := rapid.SampledFrom([]int64{0, 0, 1, int64(n) - 1}).Draw(t, "hres")
+		s.SlotRel = (res - h0%int64(n) + int64(n)) % int64(n)
+		if rapid.Bool().Draw(t, "second_lap") {
+			s.SlotRel += int64(n)
+		}
+		var rs []int
+		for r := 1; r <= max; r++ {
+			if r%n == 0 || r%n == 1 || r%n == n-1 {
+				rs = append(rs, r)
+			}
+		}
+		s.Round = uint64(rapid.SampledFrom(rs).Draw(t, "round_wrap"))
+	}
+	s.RecvRelMs = recvFor(s.Round)
+	if s.Round > 1 {
+		s.Just = "rc-quorum"
+	}
+	signer := uint64(rapid.IntRange(1, n).Draw(t, "signer"))
+	s.Signers, s.EnvOp = []uint64{signer}, signer
+	p.Msg = s
+	return p
+}
+
+func TestPropLeaderRule(t *testing.T) {
+	prog.Check(t, "C09", "TestPropLeaderRule", genLeader, runLeader)
 }
 
 func TestPropRuleMutants(t *testing.T) { prog.Check(t, "C09", "TestPropRuleMutants", gen, run) }
@@ -601,4 +800,6 @@ func TestPropConcurrentPairs(t *testing.T) {
 func TestReplay(t *testing.T) {
 	prog.Replay(t, "C09", "TestPropRuleMutants", run)
 	prog.Replay(t, "C09", "TestPropConcurrentPairs", runConc)
+	prog.Replay(t, "C09", "TestPropTopicRule", runTopic)
+	prog.Replay(t, "C09", "TestPropLeaderRule", runLeader)
 }
